@@ -149,44 +149,49 @@ Definition dview_of (p : Z) (s : vsock) : dst :=
 
 Definition rfin (s : vsock) : bool := is_remote_fin_or_later (v_state s).
 
-(* s' is reached from s by a list of data events.  err = the list may contain EvRxErr. *)
-Definition devs (err : bool) (p : Z) (s : vsock) (p' : Z) (s' : vsock) : Prop :=
+(* s' is reached from s by a list of data events.  ib = the messages the delivery events may come
+   from, err = the list may contain EvRxErr. *)
+Definition devs (ib : list msg) (err : bool) (p : Z) (s : vsock) (p' : Z) (s' : vsock) : Prop :=
   exists evs,
     dview_of p' s' = drun (dview_of p s) evs /\
-    Forall (ev_src (v_inbox s)) evs /\
+    Forall (ev_src ib) evs /\
     (exists pre, v_inbox s = pre ++ v_inbox s') /\
     (rfin s = true -> rfin s' = true) /\
     (existsb is_fin_ev evs = true -> rfin s' = true) /\
     (existsb is_err_ev evs = true -> err = true) /\
     (ss_ok (v_ss s) -> ss_ok (v_ss s')).
 
-Lemma devs_refl err p s : devs err p s p s.
+Lemma devs_refl ib err p s : devs ib err p s p s.
 Proof.
   exists []. cbn [drun existsb].
   split; [reflexivity|]. split; [constructor|]. split; [exists []; reflexivity|].
   split; [auto|]. split; [discriminate|]. split; [discriminate|auto].
 Qed.
 
-Lemma devs_trans err p0 s0 p1 s1 p2 s2 :
-  devs err p0 s0 p1 s1 -> devs err p1 s1 p2 s2 -> devs err p0 s0 p2 s2.
+Lemma devs_trans ib err p0 s0 p1 s1 p2 s2 :
+  devs ib err p0 s0 p1 s1 -> devs ib err p1 s1 p2 s2 -> devs ib err p0 s0 p2 s2.
 Proof.
   intros (e1 & A1 & A2 & (pre1 & A3) & A4 & A5 & A6 & A7) (e2 & B1 & B2 & (pre2 & B3) & B4 & B5 & B6 & B7).
   exists (e1 ++ e2). rewrite drun_app, <- A1, <- B1.
-  split; [reflexivity|]. split.
-  { apply Forall_app. split; [exact A2|].
-    eapply Forall_impl; [|exact B2]. intros e. apply ev_src_incl.
-    rewrite A3. intros x Hx. apply in_or_app. right. exact Hx. }
+  split; [reflexivity|]. split; [apply Forall_app; split; assumption|].
   split; [exists (pre1 ++ pre2); rewrite A3, B3, app_assoc; reflexivity|].
   split; [auto|]. split.
   { rewrite existsb_app. intro H. apply orb_true_iff in H. destruct H as [H|H]; auto. }
   split; [rewrite existsb_app; intro H; apply orb_true_iff in H; destruct H as [H|H]; auto|auto].
 Qed.
 
-Lemma devs_weaken p s p' s' : devs false p s p' s' -> devs true p s p' s'.
+Lemma devs_weaken ib p s p' s' : devs ib false p s p' s' -> devs ib true p s p' s'.
 Proof.
   intros (e & A1 & A2 & A3 & A4 & A5 & A6 & A7). exists e.
   split; [exact A1|]. split; [exact A2|]. split; [exact A3|]. split; [exact A4|]. split; [exact A5|].
   split; [reflexivity|exact A7].
+Qed.
+
+Lemma devs_ib_mono ib ib' err p s p' s' : incl ib ib' -> devs ib err p s p' s' -> devs ib' err p s p' s'.
+Proof.
+  intros Hi (e & A1 & A2 & A3 & A4 & A5 & A6 & A7). exists e.
+  split; [exact A1|]. split; [eapply Forall_impl; [|exact A2]; intro x; apply ev_src_incl; exact Hi|].
+  split; [exact A3|]. split; [exact A4|]. split; [exact A5|]. split; [exact A6|exact A7].
 Qed.
 
 (* a step that leaves the data view alone *)
@@ -203,8 +208,8 @@ Proof.
   repeat split; congruence.
 Qed.
 
-Lemma devs_same err p s s' :
-  same_view s s' -> (rfin s = true -> rfin s' = true) -> devs err p s p s'.
+Lemma devs_same ib err p s s' :
+  same_view s s' -> (rfin s = true -> rfin s' = true) -> devs ib err p s p s'.
 Proof.
   intros (A1 & A2 & A3 & A4 & A5 & A6 & A7) Hf. exists []. cbn [drun existsb].
   split; [unfold dview_of; rewrite A1, A2, A3, A4, A5; reflexivity|].
@@ -212,22 +217,31 @@ Proof.
   split; [exact Hf|]. split; [discriminate|]. split; [discriminate|]. rewrite A7. auto.
 Qed.
 
-Lemma devs_same_state err p s s' :
-  same_view s s' -> v_state s' = v_state s -> devs err p s p s'.
+Lemma devs_same_state ib err p s s' :
+  same_view s s' -> v_state s' = v_state s -> devs ib err p s p s'.
 Proof. intros H Hs. apply devs_same; [exact H|]. unfold rfin. rewrite Hs. auto. Qed.
 
-(* one event that is neither a data, fin nor error event *)
-Lemma devs_one err e p s p' s' :
+(* one event; a delivery must come from ib, a FIN event must leave the state after the remote FIN *)
+Lemma devs_one ib err e p s p' s' :
   dview_of p' s' = dapply (dview_of p s) e ->
-  ev_src (v_inbox s) e -> is_fin_ev e = false -> is_err_ev e = false ->
+  ev_src ib e -> (is_fin_ev e = true -> rfin s' = true) -> (is_err_ev e = true -> err = true) ->
   v_inbox s' = v_inbox s -> (rfin s = true -> rfin s' = true) -> (ss_ok (v_ss s) -> ss_ok (v_ss s')) ->
-  devs err p s p' s'.
+  devs ib err p s p' s'.
 Proof.
-  intros H Hsrc Hf He Hi Hr Hss. exists [e]. cbn [drun existsb]. rewrite Hf, He.
+  intros H Hsrc Hf He Hi Hr Hss. exists [e]. cbn [drun existsb]. rewrite !orb_false_r.
   split; [exact H|]. split; [constructor; [exact Hsrc|constructor]|].
-  split; [exists []; rewrite Hi; reflexivity|]. split; [exact Hr|]. split; [discriminate|].
-  split; [discriminate|exact Hss].
+  split; [exists []; rewrite Hi; reflexivity|]. split; [exact Hr|]. split; [exact Hf|].
+  split; [exact He|exact Hss].
 Qed.
+
+(* "s' is reached from s by data events that are no deliveries, outside
+   process_all_incoming_messages" *)
+Definition D0 (s s' : vsock) : Prop := forall ib, devs ib false 0 s 0 s'.
+
+Lemma D0_refl s : D0 s s.
+Proof. intro ib. apply devs_refl. Qed.
+Lemma D0_trans a b c : D0 a b -> D0 b c -> D0 a c.
+Proof. intros H1 H2 ib. eapply devs_trans; [apply H1|apply H2]. Qed.
 
 (* ------------------------------------------------------------------ a triple for the step monad *)
 Definition stp {A} (m : step (CC:=CC) A) (Q : vsock -> A -> Prop) (E : vsock -> Prop) : Prop :=
